@@ -82,6 +82,8 @@ func (p *service) processor() {
 			return
 		}
 
+		verifEvent("proc", p, int64(mtype), int64(msg.PacketID()), int64(total), "")
+
 		// 7. Check to see if done is closed, if so, exit
 		if p.isDone() && p.in.Len() == 0 {
 			return
